@@ -331,7 +331,7 @@ class Generated(Part):
     rule = ("generated programs: 2-4 threads x 1-4 ops over print (1-3 lines), log, capture{1-2 prints}, and - with a Live or Progress display - update(frame, refresh), "
             "refresh, advance, stop; record on/off; x generated schedules (<= 6 preemptions, tie-break tape); non-trivial = the schedule switched threads inside a "
             "rich frame and >= 2 threads wrote")
-    budget = {"quick": (8, 150), "thorough": (16, 5000)}
+    budget = {"quick": (16, 200), "thorough": (16, 5000)}
     chunk = 150
 
     def strategy(self, tier):
